@@ -64,6 +64,7 @@ func main() {
 			sessions *= 10
 		}
 		runCorpus(w)
+		authFamily(g, nil, []forkPoint{forkPoints[0]})
 		runAmounts(g, thorough)
 		runSessions(g, sessions, stats)
 		runIsolated(g)
@@ -470,6 +471,7 @@ func runSearch(g *Gen, n int, stats map[string]interface{}) {
 	evals += searchCorpus(w, found)
 	evals += searchUnstake(w, found)
 	evals += searchFamilies(g, found)
+	evals += authFamily(g, found, []forkPoint{forkPoints[0], forkByLabel("mainnet>=015"), forkByLabel("robin>=026")})
 	for evals < n {
 		w.univ = universe()
 		w.fork = forkPoints[0]
@@ -696,6 +698,78 @@ func searchFamilies(g *Gen, found map[string]bool) int {
 					Replay: snapshotLines(w)}
 				js, _ := json.Marshal(f)
 				fmt.Println("FOUND " + string(js))
+			}
+		}
+	}
+	return n
+}
+
+// authFamily: AUTHCALL with value where sponsor (tx origin), authority and invoker contract hold balances on each side
+// of the value: sponsor ∈ {< value, = value, > value} × authority ∈ {< , =, >} × value ∈ {0, 1, mid, whole}.
+// Emits ordinary op lines (the model follows) and checks the wealth oracle; used by correspondence and searcher.
+func authFamily(g *Gen, found map[string]bool, fps []forkPoint) int {
+	w := g.w
+	n := 0
+	for _, fp := range fps {
+		for _, val := range []*big.Int{big.NewInt(0), big.NewInt(1), rpg(50), rpg(101)} {
+			for si := 0; si < 3; si++ {
+				for ai := 0; ai < 3; ai++ {
+					w.univ = universe()
+					w.fork = fp
+					w.Reset(true)
+					if !w.flags.P014 {
+						continue
+					}
+					rel := func(i int) *big.Int {
+						switch i {
+						case 0:
+							if val.Sign() == 0 {
+								return big.NewInt(0)
+							}
+							return new(big.Int).Sub(val, big.NewInt(1))
+						case 1:
+							return new(big.Int).Set(val)
+						}
+						return new(big.Int).Add(val, rpg(7))
+					}
+					gl, cost := "20000000", big.NewInt(0)
+					if w.flags.P015 {
+						cost = new(big.Int).Mul(big.NewInt(20000000), gwei)
+					}
+					if w.flags.P026 {
+						gl = "600000000"
+						cost = new(big.Int).Mul(big.NewInt(600000000), gwei)
+					}
+					src, k, callee := eoas[0], contracts[0], eoas[1]
+					// while the EVM runs the sponsor holds what it was given minus the transaction fee (the gas fee is charged
+					// afterwards), and the pre-check wants at least gasLimit * price: so "below the value" needs value > gas cost
+					sponsor := rel(si)
+					if sponsor.Cmp(cost) < 0 {
+						sponsor = new(big.Int).Set(cost)
+					}
+					sponsor.Add(sponsor, big.NewInt(1000000000000000))
+					w.Set(src, sponsor)
+					w.Set(authorityAddr(), rel(ai))
+					w.Set(k, rel((si+ai)%3))
+					w.Code(k, Script{{Kind: "ac", To: callee, Val: val}})
+					w.refreshFlags(w.height+1, w.height)
+					t := k
+					w.QueueContract(CtSpec{Src: src, Target: &t, GasLimit: gl, Value: "0"})
+					qs := append([]*QTx{}, w.queue...)
+					res := w.Exec()
+					n++
+					if res.Panic != "" || found == nil {
+						continue
+					}
+					if key := classify(qs, res); key != "" && !found[key] {
+						found[key] = true
+						d := new(big.Int).Sub(res.WAfter, res.WBefore)
+						f := Found{Key: key, Desc: fmt.Sprintf("AUTHCALL family at %s: value %s, sponsor %s (after fee and gas), authority %s: balances+escrow+stake changed by %s wei (%s): %s",
+							fp.label, val, rel(si), rel(ai), d.String(), res.Statuses, qs[0].line), Replay: snapshotLines(w)}
+						js, _ := json.Marshal(f)
+						fmt.Println("FOUND " + string(js))
+					}
+				}
 			}
 		}
 	}
